@@ -6,6 +6,20 @@ import os
 ROOT = os.path.dirname(os.path.dirname(os.path.abspath(__file__)))
 
 CLAIMED = {
+    "C04": dict(
+        category="model_checking",
+        technique="TLA+ rule catalogue (Violations: item -> codes of the violated rules) enumerated by TLC over "
+                  "bounded-exhaustive small-scope families; every item rendered and compiled; containment oracle "
+                  "(accepted iff well-formed; reported codes a non-empty subset of the violated rules' codes)",
+        text="Rules.tla is an independent reference checker for the statement's rule list (names, tags, compact types, "
+             "enumerator values and ranges with symbolic bounds, underlying types, checked/compact enums, dictionary keys "
+             "recursively through compact structs and aliases, stream placement, return arity, inherited operations, "
+             "alias of optional, module placement, attribute legality / arity / arguments / repetition on 17 targets). "
+             "TLC enumerates 95 k (thorough 196 k) items over six families; each is rendered from a template, compiled, "
+             "and judged by containment. The generator of well-formed programs (C02) carries the same rules as guards.",
+        note="Families are small-scope (<= 3 members / 2-3 enumerators); rule interactions across families are covered only "
+             "by the generator of well-formed programs. The statement's rule -> code grouping is used, not 1:1 codes.",
+        design_ref="5 (C04), 4 (Rules), Appendix B"),
     "C15": dict(
         category="model_checking",
         technique="TLA+ lookup-table model under file permutations (TLC: order independence of the intended table, "
